@@ -435,11 +435,7 @@ Section Model.
           | StList t' =>
               match from with
               | LList vs =>
-                  (fix go (l : list lit) : bool :=
-                     match l with
-                     | [] => true
-                     | v :: r => validate_coercion v t' false && go r
-                     end) vs
+                  forallb (fun v => validate_coercion v t' false) vs
               | _ => if allow then on_ty t' true else false
               end
           | StNamed n =>
@@ -450,15 +446,11 @@ Section Model.
                   match from with
                   | LObject fs =>
                       negb (has_dup (map fst fs))
-                      && (fix go (l : list (name * lit)) : bool :=
-                            match l with
-                            | [] => true
-                            | (fname, fv) :: r =>
-                                match aget fname fields with
-                                | Some fd => validate_coercion fv (in_type fd) true
-                                | None => false                     (* field does not exist *)
-                                end && go r
-                            end) fs
+                      && forallb (fun p : name * lit =>
+                                    match aget (fst p) fields with
+                                    | Some fd => validate_coercion (snd p) (in_type fd) true
+                                    | None => false                     (* field does not exist *)
+                                    end) fs
                       && forallb (fun f : name * in_def =>
                                     negb (is_nonnull (in_type (snd f)) && match in_default (snd f) with None => true | Some _ => false end)
                                     || ahas (fst f) fs) fields
@@ -524,8 +516,7 @@ Section Model.
                     | Some t => match nullable_type t with StList t' => Some t' | _ => None end
                     | None => None
                     end in
-        (fix go (l : list lit) : bool :=
-           match l with [] => true | v :: r => usage_ok defs v item false && go r end) vs
+        forallb (fun v => usage_ok defs v item false) vs
     | LObject fs =>
         let fields := match expected with
                       | Some t => match (if fix_item_object fx then leaf_type t else nullable_type t) with
@@ -534,24 +525,19 @@ Section Model.
                                   end
                       | None => []
                       end in
-        (fix go (l : list (name * lit)) : bool :=
-           match l with
-           | [] => true
-           | (fname, fv) :: r =>
-               match aget fname fields with
-               | Some fd => usage_ok defs fv (Some (in_type fd)) (field_loc_default fd)
-               | None => usage_ok defs fv None false
-               end && go r
-           end) fs
+        forallb (fun p : name * lit =>
+                   match aget (fst p) fields with
+                   | Some fd => usage_ok defs (snd p) (Some (in_type fd)) (field_loc_default fd)
+                   | None => usage_ok defs (snd p) None false
+                   end) fs
     | _ => true
     end.
 
   Fixpoint lit_vars (l : lit) : list name :=
     match l with
     | LVar n => [n]
-    | LList vs => (fix go (l : list lit) : list name := match l with [] => [] | v :: r => lit_vars v ++ go r end) vs
-    | LObject fs => (fix go (l : list (name * lit)) : list name :=
-                       match l with [] => [] | (_, v) :: r => lit_vars v ++ go r end) fs
+    | LList vs => flat_map lit_vars vs
+    | LObject fs => flat_map (fun p : name * lit => lit_vars (snd p)) fs
     | _ => []
     end.
 
